@@ -115,6 +115,8 @@ def judge_case(rec, obs):
         sig = dict(base, clause="loop", threads=-1, serial_extra="other", serial_missing="other")
         return [(sig, "a traversal did not end within the time limit (after run %s)" % obs["hang_after"])]
     runs = [(0, "serial", obs["serial"])]
+    if "sorted" in obs:
+        runs.append((0, "serial/sorted by name", obs["sorted"]))
     for n, r in sorted(obs.get("par", {}).items(), key=lambda kv: int(kv[0])):
         runs.append((int(n), "parallel/%s" % n, r))
     for n, r in sorted(obs.get("pert", {}).items(), key=lambda kv: int(kv[0])):
@@ -126,7 +128,7 @@ def judge_case(rec, obs):
     kf_extra = kf - must
     ser_bad = bool(obs["serial"].get("panic") or obs["serial"].get("runaway"))
 
-    def classify(extra, missing):
+    def classify(extra, missing, ser=ser):
         """How the serial result deviates (from the expectation or from a parallel run), and whether the spec's named
         deviations of the pinned serial walker (SerialDecision with kf = TRUE) explain it: extra entries must be among
         those the size-before-filter transcription adds (max_filesize and a filter set), missing entries among those the
@@ -149,6 +151,10 @@ def judge_case(rec, obs):
         sig.update(extra or classify((ser - must) - may, must - ser))
         out.append((sig, why))
 
+    def own(label, c):
+        """a single-threaded run is classified by its own deviation (the two of them may list in different orders)"""
+        return classify((c - must) - may, must - c, ser=c) if label.startswith("serial") else None
+
     as_expected = {}
     for n, label, r in runs:
         c = cnt[label]
@@ -167,13 +173,15 @@ def judge_case(rec, obs):
         if missing or bad_extra:
             dup = [k for k in bad_extra if k in must or k in may]
             if dup and not missing and len(dup) == len(bad_extra):
-                add("duplicate", n, "%s: reported more than once: %s" % (label, sorted(map(str, dup))[:4]))
+                add("duplicate", n, "%s: reported more than once: %s" % (label, sorted(map(str, dup))[:4]), own(label, c))
             elif any(k[2] for k in missing) and all(k[2] for k in missing) and not bad_extra:
-                add("loop", n, "%s: link cycle not reported as an error: %s" % (label, sorted(map(str, missing))[:4]))
+                add("loop", n, "%s: link cycle not reported as an error: %s" % (label, sorted(map(str, missing))[:4]), own(label, c))
             else:
                 add("vs_expected", n, "%s: missing %s, unexpected %s" % (
-                    label, sorted(map(str, missing))[:4], sorted(map(str, bad_extra))[:4]))
+                    label, sorted(map(str, missing))[:4], sorted(map(str, bad_extra))[:4]), own(label, c))
     for n, label, r in runs[1:]:
+        if label.startswith("serial"):
+            continue
         if cnt[label] != ser:
             add("serial_vs_parallel", n, "serial and %s differ: only serial %s, only parallel %s" % (
                 label, sorted(map(str, ser - cnt[label]))[:4], sorted(map(str, cnt[label] - ser))[:4]),
